@@ -19,7 +19,7 @@ pub fn prop() -> Prop {
         run,
         replay,
         shards: |_| 16,
-        timeout_s: |t| if t.thorough() { 3400 } else { 300 },
+        timeout_s: |t| if t.thorough() { 7000 } else { 300 },
         mem_limit: 0, // the fixed mapping and signal stack must not be constrained
     }
 }
